@@ -3,10 +3,11 @@
 # confirms the change (demo passes without / fails with it, suite at baseline), stores it as the next free /verif/seeded/<prop><letter>,
 # and evaluates the registered checks against it.
 prop=$1; dir=$2; which=$3
-for L in A B C D E F G H I J K L; do [ -d /verif/seeded/$prop$L ] || { id=$prop$L; break; }; done
+id=""; for L in A B C D E F G H I J K L M N O P Q R S T U V W X Y Z; do [ -d /verif/seeded/$prop$L ] || { id=$prop$L; break; }; done
+[ -n "$id" ] || { echo "no free seed id for $prop"; exit 2; }
 bash /verif/vf/confirm_seed.sh $id $dir/$which.diff $dir/${which}_demo.rs > /tmp/adopt_$id.log 2>&1
 if ! grep -q "suite_with_patch: baseline" /verif/seeded/$id/confirm.txt || ! grep -q "demo_without_patch: test result: ok" /verif/seeded/$id/confirm.txt || grep -q "demo_with_patch: test result: ok" /verif/seeded/$id/confirm.txt; then
-  echo "$id NOT CONFIRMED: $(cat /verif/seeded/$id/confirm.txt | tr '\n' ' ')"; rm -rf /verif/seeded/$id; exit 1
+  echo "$id NOT CONFIRMED: $(cat /verif/seeded/$id/confirm.txt | tr '\n' ' ')"; [ -n "$id" ] && rm -rf "/verif/seeded/$id"; exit 1
 fi
 cp $dir/$which.md /verif/seeded/$id/notes.md
 python3 - "$id" "$prop" "$dir/$which.md" <<'PY'
